@@ -49,6 +49,8 @@ def run_property(pid, tier='quick', only=None, repo_root=None, quiet=False, writ
                     print('KNOWN-FINDING: property=%s %s [%s %s:%s %s]' % (pid, k.get('what'), o.rule, o.file, o.line, o.func))
             else:
                 violations.append(o)
+    if ctx is not None and error is None and ctx.floor_failures and not violations:
+        error = '; '.join(ctx.floor_failures)
     selftest = None
     if tier == 'thorough' and error is None and write:
         try:
